@@ -121,7 +121,8 @@ pub fn build_disconnect<'a>(d: &ODisconnect, props: &'a [Property<'a>]) -> Resul
     Ok(match (&d.props, d.reason) {
         (None, _) => base,
         (Some(_), Some(_)) => base.with_properties(props),
-        (Some(_), None) => return Err(Bad("disconnect-shape")),
+        // the builder supplies ReasonCode::Success when properties are attached to a reason-less DISCONNECT
+        (Some(_), None) => base.with_properties(props),
     })
 }
 
